@@ -84,11 +84,11 @@ def crash_points(v, refs, sources, quick, seed):
     v.cov["traces_validated_against_impl"] += n
 
 
-def schedules(v, refs, quick):
+def schedules(v, refs, quick, clause="Inv_C16_Safe", pairs=None):
     """two live processes, every pair of pre-emption points (context bound 2)"""
     from bind import cache_harness as ch
     n = 0
-    pairs = [("A", "A"), ("A", "B"), ("B", "Bp")] if not quick else [("A", "B"), ("B", "Bp")]
+    pairs = pairs or ([("A", "A"), ("A", "B"), ("B", "Bp")] if not quick else [("A", "B"), ("B", "Bp")])
     for d1, d2 in pairs:
         for bytecode in (False, True):
             for k1 in range(0, 16, 1 if not quick else 2):
@@ -108,7 +108,7 @@ def schedules(v, refs, quick):
                         v.count_case(("sched", d1, d2, bytecode, k1, k2), nontrivial=True)
                         for c in (a, b):
                             if c.outcome != "own":
-                                v.violation("Inv_C16_Safe", "process defining %s ended as %r (other process: %s; %d steps of the first, then %d of the second, then the rest)"
+                                v.violation(clause, "process defining %s ended as %r (other process: %s; %d steps of the first, then %d of the second, then the rest)"
                                             % (c.decl, c.outcome, d2 if c is a else d1, k1, k2),
                                             {"decls": [d1, d2], "bytecode": bytecode, "k": [k1, k2], "trace": c.trace})
                     finally:
